@@ -74,7 +74,12 @@ impl<T: RefCnt> HybridProtection<T> {
         // We already synchronized the start of the sequence by SeqCst in the new_helping vs swap on
         // the pointer. We just need to make sure to bring the pointee in (this can be newer than
         // what we got in the Debt)
-        let candidate = storage.load(Acquire);
+        //
+        // This needs to be SeqCst too: only SeqCst *operations* take part in the single total
+        // order, the swap on control inside new_helping does not act as a fence. With Acquire the
+        // load may return a pointer a writer has already replaced *and* that writer may have
+        // seen our control still idle, so nobody would protect the candidate.
+        let candidate = storage.load(SeqCst);
 
         // Try to replace the debt with our candidate. If it works, we get the debt slot to use. If
         // not, we get a replacement value, already protected and a debt to take care of.
